@@ -13,13 +13,19 @@ impl Scenario for C11 {
     }
 
     fn run(&self, seed: u64, ch: Chooser, ctx: &RunCtx) -> RunOut {
+        // the first 14^4 runs (thorough: 14^6) sweep all short operation sequences at table level; of the rest,
+        // three in four are random table level histories and one in four is a node level run
+        let sweep = super::tbl::sweep_size(ctx.tier);
+        if ctx.index < sweep || (ctx.index - sweep) % 4 != 0 {
+            return super::tbl::run(Focus::C11, seed, ch, ctx, ctx.index);
+        }
         fwd::run(Focus::C11, seed, ch, ctx)
     }
 
     fn budget(&self, tier: Tier) -> (u64, u64) {
         match tier {
-            Tier::Quick => (3000, 120),
-            Tier::Thorough => (120_000, 1500),
+            Tier::Quick => (38416 + 12_000, 120),
+            Tier::Thorough => (7_529_536 + 480_000, 1500),
         }
     }
 
